@@ -273,7 +273,7 @@ var fieldCorpus = map[byte][]string{
 	0x15: {"PLAIN", "SCRAM-SHA-1", "SCRAM-SHA-256", "GS2-KRB5", "OAUTHBEARER", "EXTERNAL", "plain"},
 	0x12: {"client-1", "auto-0000000000000001", "mqtt", "MQTT"},
 	0x1A: {"{}", "ok", "response-information", "a/b"},
-	0x1C: {"localhost:1883", "example.com", "10.0.0.1:8883", "[::1]:1883", "other-server example.com:1883", "tcp://host:1883", "ssl://host:8883", "mqtt://broker", "mqtts://broker:8883", "ws://host/mqtt", "wss://host:443/mqtt", "tls://h"},
+	0x1C: {"localhost:1883", "example.com", "10.0.0.1:8883", "[::1]:1883", "other-server example.com:1883", "tcp://host:1883", "ssl://host:8883", "mqtt://broker", "mqtts://broker:8883", "ws://host/mqtt", "wss://host:443/mqtt", "tls://h", "mqtt://", "tcp://", "://", "a b", " ", ":1883"},
 	0x1F: {"ok", "not authorized", "bad user name or password", "quota exceeded", "Success", "error: %v"},
 }
 
